@@ -40,6 +40,54 @@ Theorem connectivity_closed :
 Proof. exact connectivity_closed_lemma. Qed.
 Print Assumptions connectivity_closed.
 
+(* The same for EVERY number of ports and EVERY S matrix, on the union-find code AS CODED (the array set[],
+   find with its two loops, "the larger leader is redirected to the smaller", the scan of the S cells by rows,
+   the find calls of the second pass): cell (i, j) of the connectivity matrix is set exactly when i and j are
+   related by the reflexive - symmetric - transitive closure of "S cell (a, b), a <> b, is not the known zero"
+   (s_edge; the symmetric closure covers "(a, b) or (b, a)").  Proof: induction over the cells processed
+   (ConnProofs.Inv). *)
+Require Import Relations LV.Cal.ConnProofs.
+Theorem connectivity_closed_every_n : forall n s i j, (i < n)%nat -> (j < n)%nat ->
+  (nth (i * n + j) (build_connectivity n s) false = true <-> clos_refl_sym_trans nat (s_edge n s) i j).
+Proof. exact connectivity_closed_every_n_lemma. Qed.
+Print Assumptions connectivity_closed_every_n.
+
+Theorem connectivity_matrix_length : forall n s, length (build_connectivity n s) = (n * n)%nat.
+Proof. exact build_connectivity_length_lemma. Qed.
+Print Assumptions connectivity_matrix_length.
+
+(* the forest the scan leaves is acyclic: set[] has n cells and no parent link goes to a larger index *)
+Theorem connectivity_forest_acyclic : forall n s, wfset n (scan_set n s).
+Proof. exact scan_forest_acyclic_lemma. Qed.
+Print Assumptions connectivity_forest_acyclic.
+
+(* FUEL ADEQUACY: on such a forest find() with the fuel n (the number of ports) ends by its own loop
+   conditions: the value returned is a leader (set[l] = l) and any larger fuel returns the same leader and
+   leaves the same array *)
+Theorem find_fuel_adequate : forall n set i f, wfset n set -> (i < n)%nat -> (n <= f)%nat ->
+  find_set f set i = find_set n set i /\
+  nth (fst (find_set n set i)) set (fst (find_set n set i)) = fst (find_set n set i).
+Proof. exact find_fuel_adequate_lemma. Qed.
+Print Assumptions find_fuel_adequate.
+
+(* find() as coded redirects set[index] alone (the step i = set[i] reads the cell just written) and changes no
+   leader *)
+Theorem find_keeps_leaders : forall n set i, wfset n set -> (i < n)%nat ->
+  exists set', find_set n set i = (rep n set i, set') /\ wfset n set' /\ forall k, rep n set' k = rep n set k.
+Proof. exact find_set_spec. Qed.
+Print Assumptions find_keeps_leaders.
+
+(* not vacuous: six ports, S non-zero only at (1,2), (2,0), (3,4), (4,2): the scan leaves the two-level forest
+   4 -> 3 -> 0; ports 0..4 connected, port 5 alone *)
+Theorem connectivity_two_level_forest :
+  scan_set 6 chain6 = (0 :: 0 :: 0 :: 0 :: 3 :: 5 :: nil)%nat /\
+  nth (4 * 6 + 1) (build_connectivity 6 chain6) false = true /\
+  nth (4 * 6 + 5) (build_connectivity 6 chain6) false = false /\
+  clos_refl_sym_trans nat (s_edge 6 chain6) 4%nat 1%nat /\
+  ~ clos_refl_sym_trans nat (s_edge 6 chain6) 4%nat 5%nat.
+Proof. exact connectivity_two_level_example. Qed.
+Print Assumptions connectivity_two_level_forest.
+
 (* ================================================================================================ *)
 (* Part 1b (stdlib): the numeric core AS CODED -- fill_* of vnacal_apply.c (Cal/ApplyModel.v), one
    frequency of vnacal_new_solve without unknown parameters (Cal/SolveSimple.v: leakage means, assembly
@@ -125,6 +173,56 @@ Theorem assembled_row_is_equation_cell_nonvacuous :
             small_cfgs 0 = 518.
 Proof. exact small_cfgs_size. Qed.
 Print Assumptions assembled_row_is_equation_cell_nonvacuous.
+
+(* ---- solve: assembly for LISTS of standards, known-zero and absent S cells ---- *)
+
+(* One standard, ARBITRARY leakage-corrected values fadj, EVERY field.  Bound in the statement: zcfgs = the 8
+   measuring types, dimensions 1..3 as the type allows, every non-empty port set, known-zero masks of the k x k
+   S matrix: k = 1 both, k = 2 all 16 (4 on a 3-port VNA), k = 3 four (none; all off-diagonal + S11; above the
+   diagonal; all off-diagonal but S23, S31) -- 864 configurations.  Every row built by the body of
+   SolveSimple.row_of is the cell of the documented matrix expression at the error terms, M' = fadj and the S
+   matrix of the standard (known zero = 0, parameter = its value, absent cell = any value). *)
+Require Import LV.Cal.C17Proofs LV.Cal.OrderProofs LV.Cal.AssembleList.
+Theorem assembled_row_is_equation_cell_zero_cells (K : CField) : forall c, In c zcfgs -> adj_identity K c.
+Proof. exact (adj_identity_all K). Qed.
+Print Assumptions assembled_row_is_equation_cell_zero_cells.
+
+(* EVERY list of standards of that family (any number, any order, any mix of full multi-port standards,
+   standards on a subset of the ports and standards with known-zero cells), every field, all values: every
+   row of every system assembled by the model of _vnacal_new_solve_simple for the WHOLE list satisfies
+   sum_k a_k x_k - b = cell (eq_row, eq_col) of the documented matrix expression of the standard the row
+   belongs to, with M' = its measurement minus the leakage means computed over the whole list (m_adjusted).
+   The dimensions stay bounded (1..3) through the family; the list is not bounded. *)
+Theorem assembled_list_rows_are_equation_cells (K : CField) ty mr mc (ms : list (mvals (ops_of K)))
+        (pv : Z -> K) (fe fx : nat -> K) (sys : nat) :
+  sys < systems_of ty mc ->
+  (forall mv, In mv ms -> std_of K ty mr mc mv) ->
+  Forall2 (fun row me =>
+             row_res K ty mr mc fe sys row
+             = std_cell K ty mr mc (mv_meas _ (fst me)) fe (m_adjusted (ops_of K) ty mr mc ms (fst me)) fx pv
+                        (e_row (snd me)) (e_col (snd me)))
+          (assemble (ops_of K) ty mr mc pv ms sys)
+          (flat_map (fun mv => map (pair mv) (filter (eq_in_system ty sys) (ms_eqs (mv_meas _ mv)))) ms).
+Proof. exact (assembled_list_rows_lemma K ty mr mc ms pv fe fx sys). Qed.
+Print Assumptions assembled_list_rows_are_equation_cells.
+
+(* for EVERY type, all dimensions and every list (no bound): the rows of a system are built standard by
+   standard, and a row depends on the other standards only through the leakage-corrected values *)
+Theorem assemble_standard_by_standard (O : Ops) ty mr mc pval (ms : list (mvals O)) sys :
+  assemble O ty mr mc pval ms sys =
+  flat_map (fun mv => map (fun e => row_of_adj O ty mr mc pval (m_adjusted O ty mr mc ms mv) (mv_meas O mv) e)
+                          (filter (eq_in_system ty sys) (ms_eqs (mv_meas O mv)))) ms.
+Proof. exact (assemble_flat O ty mr mc pval ms sys). Qed.
+Print Assumptions assemble_standard_by_standard.
+
+Theorem assembled_list_nonvacuous (K : CField) (vals : nat -> nat -> K) (pv : Z -> K) :
+  length zcfgs = 864 /\
+  length (exl_ms K vals) = 3 /\
+  (forall mv, In mv (exl_ms K vals) -> std_of K TE10 2 2 mv) /\
+  length (assemble (ops_of K) TE10 2 2 pv (exl_ms K vals) 0) = 6 /\
+  leak_mean (ops_of K) 2 2 (exl_ms K vals) (0, 1) <> None.
+Proof. exact (conj (proj1 zcfgs_size) (assembled_list_example K vals pv)). Qed.
+Print Assumptions assembled_list_nonvacuous.
 
 (* ---- solve: leakage means ---- *)
 
@@ -301,8 +399,12 @@ Print Assumptions error_terms_recover.
    1x1..4x4, 1x2 / 2x1); every list of standards, parameter values, measured values, every device.
    PARTIAL with respect to the property: (1) the calibration hypothesis is "the true normalised terms
    satisfy every assembled equation", not "the measurements of the standards come from the error
-   network" -- the bridge is assembled_row_is_equation_cell / assembled_eq_matrix_cell (one standard at a
-   time, no known-zero cells) and leak_mean_exact; (2) tall systems need the trivial-kernel hypothesis;
+   network" -- the bridge is assembled_list_rows_are_equation_cells (EVERY list of standards, known-zero
+   and absent S cells, leakage means over the whole list; dimensions 1..3 and the mask family zcfgs) with
+   assembled_eq_matrix_cell (dimension 4, one full standard) and leak_mean_exact; not formalised: that the
+   documented cell vanishes for measurements that come from the error network when the type has leakage
+   terms outside the system (block-diagonal argument), and the composition for dimensions > 3;
+   (2) tall systems need the trivial-kernel hypothesis;
    (3) exact arithmetic; (4) models, tied to the C code by the exact comparisons of checks/C01.py. *)
 Theorem c01_model_end_to_end_partial (ty : caltype) (mr mc : nat) :
   In (ty, (mr, mc)) apply_cases ->
